@@ -209,12 +209,13 @@ def run(repo: Repo, chk: Check):
     chk.saw("register_assignment", "assign_registers")
     acfg = CFG(af)
     wa = f"{ra.path}:{af.lineno} in assign_registers"
+    from .shared import register_roles
     map_stores = []
     for n in acfg.nodes:
         st = n.ast
         if n.kind == "stmt" and isinstance(st, ast.Assign):
             for tg in st.targets:
-                if isinstance(tg, ast.Subscript) and isinstance(tg.value, ast.Name) and tg.value.id == "mapping":
+                if isinstance(tg, ast.Subscript) and isinstance(tg.value, ast.Name) and tg.value.id == register_roles(ra).get("mapping", "mapping"):
                     map_stores.append((n, st))
     if not map_stores:
         raise AnalysisError("assign_registers: no store into 'mapping'")
